@@ -37,8 +37,10 @@ def effective(option, debug, slow_env):
         return debug
     if option == "True":
         return True
-    if option == "False":
+    if option in ("False", "None", "0", "empty_str"):
         return False
+    if option == "1":
+        return True
     return debug and (slow_env is not None and slow_env != "")
 
 
@@ -127,7 +129,7 @@ def run(tier, t0):
     return core.finish(
         PROP, tier, tot, t0,
         rule="9 sub-processes (normal/-O/-OO x ICONTRACT_SLOW unset/''/'1'); in each the full product decorator (require, ensure, "
-             "snapshot over enabled/same-option/no postcondition, invariant) x enabled option (default, True, False, "
+             "snapshot over enabled/same-option/no postcondition, invariant) x enabled option (default, True, False, None, 0, empty string, 1, "
              "icontract.SLOW) x target kind (function, method, static, class method, property, async, class): same object, "
              "vars unchanged, zero condition/capture calls, no validation of error when disabled; enforced when enabled; plus "
              "explicitly enabled family-F programs (logs, outcomes), generated messages and reserved-name misuse cases compared "
